@@ -61,6 +61,7 @@ var universe = []*elem{
 	{name: "d1", src: "1.0d0", quick: true, m: mflt("1")},
 	{name: "f1", src: "1.0f0", quick: true, m: mflt("1")},
 	{name: "l1", src: "1.0l0", quick: true},
+	{name: "l1b", src: "1.0l0"},
 	{name: "c1", src: "#C(1 0)", quick: true},
 	{name: "c12a", src: "#C(1 2)"},
 	{name: "c12b", src: "#C(1 2)"},
@@ -97,6 +98,7 @@ var universe = []*elem{
 	{name: "cA", src: `#\A`, quick: true, m: &mv{k: "char", s: "A"}},
 	{name: "cb", src: `#\b`},
 	{name: "nil", src: "nil", quick: true, m: &mv{k: "nil"}},
+	{name: "empty", src: "'()", quick: true},
 	{name: "t", src: "t", quick: true, m: &mv{k: "t"}},
 	// ---- lists and vectors (nested, differing in case / number representation)
 	{name: "l12a", src: "(list 1 2)", quick: true, m: &mv{k: "list", kids: []*mv{mint("1"), mint("2")}}},
@@ -236,7 +238,7 @@ func fineKind(o slip.Object) string {
 		return "character"
 	case slip.List:
 		if len(v) == 0 {
-			return "nil"
+			return "empty-list"
 		}
 		if _, ok := v[len(v)-1].(slip.Tail); ok {
 			return "dotted-list"
@@ -285,6 +287,8 @@ func kindOf(fine string) string {
 		return "symbol"
 	case "dotted-list":
 		return "list"
+	case "empty-list":
+		return "nil"
 	case "octets", "bit-vector":
 		return "vector"
 	case "lambda":
